@@ -188,6 +188,57 @@ def facade_records(rng, quick):
     return recs, meta
 
 
+def update_cycle_records(rng):
+    """the real facade update loop on the full async stack: a pump changes state while the loop is suspended
+    in a round trip of its update cycle (the water-care poll is answered late); when the cycle has finished
+    the installed table must still match the devices"""
+    import geckolib.config as cfg
+    from ..sessions import AsyncSession
+    from .c13 import ApplyEchoPeer
+    members, act, idl, _, _ = _tables()
+    recs, meta = [], []
+    peer = ApplyEchoPeer(env.REPO + "/tests/snapshots/default.snapshot")
+    with AsyncSession(peer=peer, rank=rng.choice(["stable", "perm", "reverse"]), rank_seed=rng.random()) as s:
+        if not s.wait_connected(90, need_update=True):
+            raise env.MachineryError("update-cycle scenario: no connection")
+        f = s.facade
+        cands = f.pumps + f.blowers
+        if not cands:
+            raise env.MachineryError("update-cycle scenario: no pump or blower in the default snapshot")
+        d0 = cands[0]
+        acc = d0._state_sensor.accessor
+        sim_acc = peer.sim.structure.accessors[acc.tag]
+        on_raw = 1 if acc.type == "Bool" else [i for i, x in enumerate(acc.items) if x not in ("OFF", "")][0]
+        off_raw = 0 if acc.type == "Bool" else [i for i, x in enumerate(acc.items) if x == "OFF"][0]
+        for want_on in (True, False, True, False):
+            s.quiesce()
+            peer.wcget_delay = 0.6
+            n0 = peer.n_getwc
+            cfg.set_config_mode(cfg.GeckoConfig.PING_FREQUENCY_IN_SECONDS <= 10)      # wakes the update loop
+            for _ in range(40):
+                s.advance(0.05)
+                if peer.n_getwc > n0:
+                    break
+            if peer.n_getwc == n0:
+                raise env.MachineryError("the facade update loop did not poll when woken")
+            # the spa reports the device change while the poll is unanswered
+            pos, data = peer._field_write(sim_acc, on_raw if want_on else off_raw)
+            s.inject(peer.push_changes(s.client_parms(), [(pos, data)]))
+            peer.wcget_delay = 0.0
+            s.advance(3.0)
+            s.quiesce()
+            live = {m: getattr(cfg.GeckoConfig, m) for m in members}
+            mode = "active" if live == act else "idle" if live == idl else "mixed"
+            on = []
+            for d in cands:
+                a = d._state_sensor.accessor
+                v = a.value
+                on.append({"cls": d.device_class, "type": a.type, "raw": int(a.raw_value), "label": v if isinstance(v, str) else ""})
+            recs.append({"on": on, "mode": mode})
+            meta.append(f"update-cycle:{'on' if want_on else 'off'}-during-poll")
+    return recs, meta
+
+
 def run(ctx):
     ev = ctx.ev
     rng = env.rng("c17")
@@ -223,6 +274,10 @@ def run(ctx):
                                "event": {kk: vv for kk, vv in e.items() if kk not in ("table", "target")},
                                "before": [{kk: vv for kk, vv in x.items() if kk not in ("table", "target")} for x in lg["ev"][max(0, k - 6):k]]})
     frecs, fmeta = facade_records(rng, ctx.quick)
+    for _ in range(1 if ctx.quick else 6):
+        r2_, m2_ = update_cycle_records(rng)
+        frecs += r2_
+        fmeta += m2_
     if not frecs:
         raise env.MachineryError("no facade with pumps/blowers could be built")
     bad, n = tlc.judge("C17_Judge", frecs, "c17", chunk=5000)
